@@ -255,6 +255,42 @@ def interrupted(steps):
     return any(max(v) - min(v) + 1 != len(v) for v in pos.values())
 
 
+def _names(op):
+    out = {op[1]} if len(op) > 1 and isinstance(op[1], str) else set()
+    if len(op) > 2 and isinstance(op[2], list):
+        out |= {x for x in op[2] if isinstance(x, str)}
+    return out
+
+
+def err_labels(progs, res):
+    """`call=Error` for every call that failed, tagged with the MECHANISM when the step sequence shows one:
+    `@regrun-halfway` = the failed call names a collection for which ANOTHER client's registerRun was between its blocks
+    (collection row committed, run row not yet) while the failed call ran;
+    `@removed-halfway` = the failed call is a registerRun and another client's removeCollection / removeRuns of that name
+    ran between its collection-row block and its run-row block."""
+    steps = res.get("steps") or []
+    out = set()
+    for ci, (p, oc) in enumerate(zip(progs, res["outcomes"])):
+        for oi, (op, o) in enumerate(zip(p, oc)):
+            if o[0] != "err":
+                continue
+            lab = f"{op[0]}={o[1]}"
+            mine = [t for t, st in enumerate(steps) if st[0] == ci and st[1] == oi]
+            for cj, q in enumerate(progs):
+                for oj, op2 in enumerate(q):
+                    if cj == ci or len(op2) < 2 or op2[1] not in _names(op):
+                        continue
+                    theirs = [t for t, st in enumerate(steps) if st[0] == cj and st[1] == oj]
+                    if op[0] != "regrun" and op2[0] == "regrun" and \
+                            any(sum(1 for x in theirs if x < t) >= 2 and any(x > t for x in theirs) for t in mine):
+                        lab = f"{op[0]}={o[1]}@regrun-halfway"
+                    if op[0] == "regrun" and op2[0] in ("rmcoll", "removerun") and len(mine) >= 3 and \
+                            any(mine[1] < x < mine[-1] for x in theirs):
+                        lab = f"{op[0]}={o[1]}@removed-halfway"
+            out.add(lab)
+    return sorted(out)
+
+
 class ProgSet:
     def __init__(self, setup, progs, fam):
         self.setup, self.progs, self.fam = setup, progs, fam
@@ -267,7 +303,7 @@ def jobs_to_batches(jobs, per):
     return [{"jobs": jobs[i:i + per]} for i in range(0, len(jobs), per)]
 
 
-def run_jobs(ctx, jobs, per=6, timeout=240):
+def run_jobs(ctx, jobs, per=12, timeout=300):
     """Run jobs in worker subprocesses (watchdog); a hang aborts its batch, the rest of that batch is re-submitted."""
     results = [None] * len(jobs)
     pending = list(range(len(jobs)))
@@ -321,11 +357,11 @@ def judge(ctx, ps: ProgSet, sched, res, extra_serial):
             # still not what the property says (no serial order refuses that call), but nothing was left behind: its own,
             # milder class of signature, so that the benign refusals that exist on the unchanged tree can be listed one by
             # one as known findings while any NEW kind of refusal (e.g. an integrity error out of a registration) is reported
-            errs = sorted({f"{op[0]}={o[1]}" for p, oc in zip(ps.progs, res["outcomes"]) for op, o in zip(p, oc) if o[0] == "err"})
+            errs = err_labels(ps.progs, res)
             ctx.hist("refused_under_race", "+".join(errs))
             return f"refused-under-race:{','.join(errs)}", dict(rep, serial_results=len(ps.serial)), \
                 "a call was refused with an error that no serial order of the same API calls produces (the refused call left nothing behind)"
-    errs = sorted({f"{op[0]}={o[1]}" for p, oc in zip(ps.progs, res["outcomes"]) for op, o in zip(p, oc) if o[0] == "err"})
+    errs = err_labels(ps.progs, res)
     return f"not-serializable:{kinds}:{','.join(errs)}", dict(rep, serial_results=len(ps.serial)), \
         "outcomes + final state equal those of NO serial order of the same API calls"
 
@@ -352,12 +388,6 @@ def run(ctx: Ctx):
         "a case = (set-up, 2-3 client programs of <= 3 API calls on overlapping names / data IDs, schedule); it is non-trivial when "
         "the executed step sequence interrupts at least one API call by a step of another client, or when some call ends in an "
         "error / False outcome (arbitration between clients); distinctness by hash of (programs, executed step sequence)")
-    # known findings of this property that tools/assemble.py has not merged yet
-    kf = VERIF / "known_findings.d" / "C20.json"
-    if kf.exists():
-        have = {k["id"] for k in ctx.known}
-        ctx.known += [k for k in json.load(open(kf)) if k["id"] not in have and k.get("property") == "C20"]
-
     props_ok = ctx.build_props(extra_targets=["Model/ConcCheck.vo"])
     if not props_ok:
         coq_make(["Model/ConcCheck.vo"])
@@ -384,6 +414,8 @@ def explore(ctx: Ctx, deep: bool, search: bool = False):
     for i in range(nsets):
         fam = fams[i % len(fams)]
         setup, progs = gen_family(r, fam)
+        if not deep and len(progs) == 3:
+            progs = [progs[0][:2], progs[1][:1], progs[2][:1]]      # quick tier: at most 12 serial orders per set
         ps = ProgSet(setup, progs, fam)
         ps.fixed_scheds = []
         sets.append(ps)
@@ -418,11 +450,13 @@ def explore(ctx: Ctx, deep: bool, search: bool = False):
                 first[si] = x
     # ---- round 2: more schedules, derived from the executed step sequence of the default schedule
     jobs, meta = [], []
-    cap = 20 if search else (40 if deep else 9)
+    cap = 20 if search else (40 if deep else 7)
     for si, ps in enumerate(sets):
         x = first.get(si)
         if not x or x.get("hang"):
             continue
+        if not deep and ps.fam.startswith("corpus:"):
+            continue        # quick tier: a corpus set runs its recorded schedules (round 1) only
         counts = [sum(1 for s in x["steps"] if s[0] == i) for i in range(len(ps.progs))]
         total = sum(counts)
         cands = []
